@@ -508,6 +508,8 @@ def check_transform_algebra(ctx, db):
                     return b.n, comp
         raise S.Unsupported('assignment target `%s`' % lhs.text()[:40])
 
+    ALIAS = {'spacing': 'v1', 'v1': 'spacing'}     # Repetition's anonymous union: `spacing` and `v1` are the same storage
+
     def store(alg, env, key, comp, val):
         if comp is None:
             env[key] = val
@@ -516,6 +518,8 @@ def check_transform_algebra(ctx, db):
             if cur is None or not alg.isvec(cur):
                 cur = alg.vec(S.P(0), S.P(0))
             env[key] = alg.vec(val, cur[2]) if comp == 1 else alg.vec(cur[1], val)
+        if key in ALIAS:
+            env[ALIAS[key]] = env[key]          # a store through one union member is seen through the other
 
     IGNORE_CALLS = ('ensure_slots', 'clear')
     n = 0
@@ -529,7 +533,7 @@ def check_transform_algebra(ctx, db):
                 envc = {'magnification != 1': mag, 'x_reflection': refl, 'rotation != 0': rot}
                 alg = A(db, None)
                 m_ = S.atom('magnification') if mag else S.P(1)
-                env = {'magnification': m_}
+                env = {'magnification': m_, 'x_reflection': S.P(int(refl))}
                 if not rot:
                     env['rotation'] = S.P(0)
                 x_, y_ = S.atom('x'), S.atom('y')
@@ -629,11 +633,11 @@ def run(ctx):
     txt = clone.canon(f.body, f)
     ok = 'RepetitionType::Explicit)' in txt and 'this->offsets.clear()' in txt and 'ExplicitX' in txt and 'ExplicitY' in txt and 'this->coords.clear()' in txt and 'memset' in txt
     ctx.check(ok, 'R-EXHAUST', 'Repetition::clear/owning-kinds', f.loc(), 'clear releases the arrays of the three explicit kinds and zeroes the object')
-    check_get_offsets(ctx, db)
-    check_get_extrema(ctx, db)
-    check_apply_repetition(ctx, db)
-    check_transform(ctx, db)
-    check_transform_algebra(ctx, db)
+    ctx.attempt(check_get_offsets, ctx, db)
+    ctx.attempt(check_get_extrema, ctx, db)
+    ctx.attempt(check_apply_repetition, ctx, db)
+    ctx.attempt(check_transform, ctx, db)
+    ctx.attempt(check_transform_algebra, ctx, db)
     # copies made by apply_repetition are built with the element's copy_from: every field copied from the same field
     from .. import copyrule
     from . import C06
